@@ -282,10 +282,55 @@ func combineLeaf(c *engine.Chooser, name string, k cfg) {
 		}
 		return o
 	}
-	c.State(name, mode, fmt.Sprint(act), oo)
+	// combiner history: a Combiner caches Lagrange data between calls, so the judged call is also made on a
+	// combiner that already served another request (same parties in reverse order / one party exchanged).
+	hist := 0
+	if mode == 0 && oo == 0 && k.t >= 2 {
+		hist = c.ChooseFree(3, "combiner-history")
+	}
+	c.Cover("combiner-history", [...]string{"fresh", "after-reversed-list", "after-other-subset"}[hist])
+	warm := func(p int) []multiparty.ShamirPublicPoint {
+		l := append([]int{}, act...)
+		switch hist {
+		case 1:
+			for i, j := 0, len(l)-1; i < j; i, j = i+1, j-1 {
+				l[i], l[j] = l[j], l[i]
+			}
+		case 2:
+			// exchange one active party (not p) for an inactive one when there is one, then rotate
+			in := map[int]bool{}
+			for _, x := range l {
+				in[x] = true
+			}
+			for cand := 0; cand < k.n; cand++ {
+				if !in[cand] {
+					for i := range l {
+						if l[i] != p {
+							l[i] = cand
+							break
+						}
+					}
+					break
+				}
+			}
+			l = append(l[1:], l[0])
+		}
+		r := make([]multiparty.ShamirPublicPoint, len(l))
+		for i, x := range l {
+			r[i] = multiparty.ShamirPublicPoint(w.pts[x])
+		}
+		return r
+	}
+	c.State(name, mode, fmt.Sprint(act), oo, hist)
 
 	genShare := func(p int) (*rlwe.SecretKey, error, interface{}) {
 		cmb := multiparty.NewCombiner(params, multiparty.ShamirPublicPoint(w.pts[p]), others(p), k.t)
+		if hist > 0 {
+			scratch := rlwe.NewSecretKey(params)
+			_, _ = uni.Try(func() error {
+				return cmb.GenAdditiveShare(warm(p), multiparty.ShamirPublicPoint(w.pts[p]), tsks[p], scratch)
+			})
+		}
 		out := rlwe.NewSecretKey(params)
 		err, pan := uni.Try(func() error {
 			return cmb.GenAdditiveShare(actPts, multiparty.ShamirPublicPoint(w.pts[p]), tsks[p], out)
